@@ -90,6 +90,12 @@ CHECKS["C05"] = dict(
     ref="DESIGN.md section 4 / C05",
 )
 
+CHECKS["C09"] = dict(
+    technique="static analysis: ownership/effect classification of every use of a borrowed tree in functions with a copy flag, dominance of copy-before-use at the non-mutating entry points, ownership of receivers at copy=False call sites",
+    text="In each of the ~100 functions with a copy parameter, every use of the caller's tree (self of expression methods; parameters handed on with copy=copy) is classified and must be a read, a copy or a threaded pass-on; generate() must copy before use with default True and every public route must thread it; optimize() must feed its rules only from maybe_parse(copy=True); transform/expand/replace_*/lineage must copy or thread; __deepcopy__ must create fresh nodes and deep-copy comments/type/meta; copy=False call sites outside the in-place layers must act on owned trees. This is the discipline on which 'non-mutating APIs leave arguments untouched' rests; mutations performed by *_sql methods on generate()'s private copy are not enumerated.",
+    ref="DESIGN.md section 4 / C09",
+)
+
 NOT_APPLICABLE = {
     "C02": "oracle is SQLite/DuckDB evaluation semantics (NULL ordering, division, || precedence); not present in the source, no structural clause implies row equality",
     "C03": "result-multiset equality of optimized vs original query over all databases; guards are semantic conditions, only checkable as frozen fragments (false-alarm prone)",
